@@ -1,6 +1,7 @@
 package drive
 
 import (
+	"bytes"
 	"encoding/base64"
 	"encoding/binary"
 	"fmt"
@@ -25,6 +26,8 @@ type routeState struct {
 
 	first  string    // the hop that talks to the listener
 	expect []expTask // wrapped tasks queued on the first hop and not yet collected, in order
+	final  refdemon.Task // the innermost task of the last unwrap
+	fileID uint32        // memfile id seen in the last chunk
 	index  map[string]int
 }
 
@@ -63,7 +66,7 @@ func (s *routeState) symOfID(id uint32) string {
 
 func (s *routeState) issue(target string, req uint32, d, j int) (string, bool) {
 	if target != s.first {
-		s.expect = append(s.expect, expTask{target, req, d, j})
+		s.expect = append(s.expect, expTask{target: target, req: req, d: d, j: j})
 	}
 	ag := s.w.Agent(s.ids[target])
 	if ag == nil {
@@ -77,6 +80,21 @@ func (s *routeState) issue(target string, req uint32, d, j int) (string, bool) {
 	return guarded(func() { s.w.TS.DispatchEvent(pk) }, 8*time.Second)
 }
 
+// issueUpload pushes a small file to the target ("upload"): the file's bytes as a chunk task, then the command that names it
+func (s *routeState) issueUpload(target string, req uint32, content []byte) (string, bool) {
+	if target != s.first {
+		s.expect = append(s.expect, expTask{target: target, kind: "chunk", data: content}, expTask{target: target, req: req, kind: "use", data: content})
+	}
+	ag := s.w.Agent(s.ids[target])
+	pk := packager.Package{}
+	pk.Head.Event = packager.Type.Session.Type
+	pk.Head.User = "neo"
+	pk.Body.SubEvent = packager.Type.Session.Input
+	pk.Body.Info = map[string]any{"DemonID": ag.NameID, "CommandID": "15", "SubCommand": "upload", "TaskID": fmt.Sprintf("%08X", req), "CommandLine": "upload",
+		"Arguments": base64.StdEncoding.EncodeToString([]byte("C:\\r\\up.bin")) + ";" + base64.StdEncoding.EncodeToString(content)}
+	return guarded(func() { s.w.TS.DispatchEvent(pk) }, 8*time.Second)
+}
+
 // unwrap follows the layers of a pivot task as the Demons would and returns the hop symbols
 // visited, where the final (non-pivot) task was found and what it decoded to.
 func (s *routeState) unwrap(me string, t refdemon.Task) (path []string, at string, req uint32, d, j int, ok bool) {
@@ -84,6 +102,7 @@ func (s *routeState) unwrap(me string, t refdemon.Task) (path []string, at strin
 	cur := me
 	for depth := 0; depth < 10; depth++ {
 		if t.Cmd != refdemon.CmdPivot {
+			s.final = t
 			if t.Cmd != refdemon.CmdSleep || len(t.Body) != 8 {
 				return path, cur, t.Req, 0, 0, false
 			}
@@ -120,6 +139,8 @@ type expTask struct {
 	target string
 	req    uint32
 	d, j   int
+	kind   string // "" (sleep task) | "chunk" (file push: the file's bytes) | "use" (file push: the command that names the file)
+	data   []byte
 }
 
 func RunRoute(behs [][]Step, tr *Trace, env Env, sum *Summary) {
@@ -198,7 +219,15 @@ func RunRoute(behs [][]Step, tr *Trace, env Env, sum *Summary) {
 						if n == 1 {
 							s.req++
 						}
-						if p, to := s.issue(target, s.req, 30+rng.Intn(1000), rng.Intn(90)); p != "" || to {
+						var p string
+						var to bool
+						if st.Str("kind") == "file" && n == 1 {
+							// the second task is a file push: its bytes must reach the target before the command that names them
+							p, to = s.issueUpload(target, s.req, []byte(fmt.Sprintf("file-%d-%d", bi, si)))
+						} else {
+							p, to = s.issue(target, s.req, 30+rng.Intn(1000), rng.Intn(90))
+						}
+						if p != "" || to {
 							fail(si, map[bool]string{true: "hang", false: "panic"}[to], "Issue", firstLines(p, 14))
 							failed = true
 						}
@@ -234,9 +263,30 @@ func RunRoute(behs [][]Step, tr *Trace, env Env, sum *Summary) {
 						e := want[got]
 						got++
 						wantPath := chain[1 : s.index[e.target]+1]
-						if !ok || at != e.target || rq != e.req || d != e.d || j != e.j || fmt.Sprint(path) != fmt.Sprint(wantPath) {
-							allOK = false
-							sum.Counters["down-mismatch"]++
+						switch e.kind {
+						case "":
+							if !ok || at != e.target || rq != e.req || d != e.d || j != e.j || fmt.Sprint(path) != fmt.Sprint(wantPath) {
+								allOK = false
+								sum.Counters["down-mismatch"]++
+							}
+						case "chunk":
+							rd := &refdemon.Rd{B: s.final.Body}
+							fid, total, data := rd.I32(), rd.I64(), rd.Bytes()
+							s.fileID = fid
+							if s.final.Cmd != refdemon.CmdMemFile || rd.Err != nil || len(rd.B) != 0 || total != uint64(len(e.data)) || !bytes.Equal(data, e.data) || at != e.target || fmt.Sprint(path) != fmt.Sprint(wantPath) {
+								allOK = false
+								sum.Counters["down-mismatch"]++
+							}
+							sum.Counters["file-chunks-routed"]++
+						case "use":
+							rd := &refdemon.Rd{B: s.final.Body}
+							sub := rd.I32()
+							rd.Bytes()
+							fid := rd.I32()
+							if s.final.Cmd != refdemon.CmdFS || rd.Err != nil || sub != 3 || fid != s.fileID || rq != e.req || at != e.target || fmt.Sprint(path) != fmt.Sprint(wantPath) {
+								allOK = false
+								sum.Counters["down-mismatch"]++
+							}
 						}
 					}
 					if got != len(want) {
@@ -301,7 +351,7 @@ func RunRoute(behs [][]Step, tr *Trace, env Env, sum *Summary) {
 					}
 					res["at"], res["ok"] = at, ok
 				}
-				tr.Emit(map[string]any{"ev": op, "owner": owner, "res": res})
+				tr.Emit(map[string]any{"ev": op, "owner": owner, "kind": st.Str("kind"), "res": res})
 			}
 			if bi < 2 {
 				sum.Samples = append(sum.Samples, map[string]any{"chain": chain, "cls": clsMap, "ids": fmt.Sprintf("%x", s.ids), "ops": beh[1:]})
